@@ -110,6 +110,9 @@ var errExpr = map[string]string{
 	"argcount":               `lower("a", "b")`,
 	"argcount-jetfunc":       `len("a", "b")`,
 	"argtype":                `repeat("a", "b")`,
+	"argtype-iface":          `gstringer(1)`,          // a parameter of a non-empty interface type and an argument that does not implement it
+	"argtype-iface-variadic": `gstringers("-", 1)`,
+	"argtype-iface-piped":    `1 | gstringer`,
 	"arg-invalid":            `lower(gnil)`,
 	"underscore":             `lower(_)`,
 	"underscore-jetfunc":     `len(_)`,
@@ -117,6 +120,7 @@ var errExpr = map[string]string{
 	"argcount-variadic":      `gjoin()`,
 	"func":                   "fail()",
 	"panic":                  "gpanic()", // a user function panicking with a value that is not an error: escapes Execute
+	"rterror":                "grterror()", // a user function hitting a Go runtime error (write to a nil map): escapes Execute too
 	"len-kind":               "len(5)",
 	"ints-range":             "ints(3, 1)",
 	"pipe-nonfunc":           `"a" | gstr`,
@@ -561,7 +565,7 @@ func atomValue(v string) interface{} {
 }
 
 // classes whose error is raised by a called Go function (no file:line by contract)
-var calleeClasses = map[string]bool{"func": true, "panic": true, "template-exec": true, "yieldarg": true, "len-kind": true, "ints-range": true,
+var calleeClasses = map[string]bool{"func": true, "panic": true, "rterror": true, "template-exec": true, "yieldarg": true, "len-kind": true, "ints-range": true,
 	"argcount-jetfunc": true, "argcount-piped-jetfunc": true, "underscore-jetfunc": true, "api-assign": true, "api-block": true}
 
 type xObs struct {
@@ -623,12 +627,15 @@ func xBuildOpt(c *xCase, esc jet.SafeWriter, useEsc bool, html bool) (*xWorld, e
 	set := jet.NewSet(loader, opts...)
 	set.AddGlobal("fail", func() string { panic(errors.New("injected failure")) })
 	set.AddGlobal("gpanic", func() string { panic("injected panic with a non-error value") })
+	set.AddGlobal("grterror", func() string { var m map[string]int; m["x"] = 1; return "" })
 	set.AddGlobal("usersw", jet.SafeWriter(func(w io.Writer, b []byte) {
 		w.Write([]byte("{"))
 		w.Write(b)
 		w.Write([]byte("}"))
 	}))
 	set.AddGlobal("gjoin", func(sep string, parts ...string) string { return strings.Join(parts, sep) })
+	set.AddGlobal("gstringer", func(s fmt.Stringer) string { return s.String() })
+	set.AddGlobal("gstringers", func(sep string, ss ...fmt.Stringer) string { return fmt.Sprint(len(ss)) })
 	set.AddGlobal("gmap", map[string]string{"hit": "hv"})
 	set.AddGlobal("gmapany", map[string]interface{}{"k": 1})
 	set.AddGlobal("gholder", gHolder{&gEmb{Deep: "deep"}})
@@ -650,22 +657,29 @@ func xBuildOpt(c *xCase, esc jet.SafeWriter, useEsc bool, html bool) (*xWorld, e
 			set.AddGlobal(n, atomValue(v))
 		}
 	}
+	// the value argument as the Go caller would pass it: nil for the nil literal
+	apiVal := func(v reflect.Value) interface{} {
+		if !v.IsValid() {
+			return nil
+		}
+		return v.Interface()
+	}
 	set.AddGlobalFunc("apiLet", func(a jet.Arguments) reflect.Value {
-		a.Runtime().Let(a.Get(0).String(), a.Get(1).Interface())
+		a.Runtime().Let(a.Get(0).String(), apiVal(a.Get(1)))
 		return reflect.Value{}
 	})
 	set.AddGlobalFunc("apiSet", func(a jet.Arguments) reflect.Value {
-		if err := a.Runtime().Set(a.Get(0).String(), a.Get(1).Interface()); err != nil {
+		if err := a.Runtime().Set(a.Get(0).String(), apiVal(a.Get(1))); err != nil {
 			panic(err)
 		}
 		return reflect.Value{}
 	})
 	set.AddGlobalFunc("apiSetOrLet", func(a jet.Arguments) reflect.Value {
-		a.Runtime().SetOrLet(a.Get(0).String(), a.Get(1).Interface())
+		a.Runtime().SetOrLet(a.Get(0).String(), apiVal(a.Get(1)))
 		return reflect.Value{}
 	})
 	set.AddGlobalFunc("apiLetGlobal", func(a jet.Arguments) reflect.Value {
-		a.Runtime().LetGlobal(a.Get(0).String(), a.Get(1).Interface())
+		a.Runtime().LetGlobal(a.Get(0).String(), apiVal(a.Get(1)))
 		return reflect.Value{}
 	})
 	set.AddGlobalFunc("apiResolve", func(a jet.Arguments) reflect.Value {
@@ -818,10 +832,14 @@ func stageRender(stage, v string) string {
 
 // xCompare checks one execution against the specification's observation.
 func xCompare(w *xWorld, exp xResult, o xObs, esc func(string) string) (bool, string, string) {
-	if exp.Err.On && exp.Err.Class == "panic" {
-		// a user function panicked with a non-error value outside any try: the panic is the caller's to handle,
-		// what was rendered before it has been written
-		if o.Panic == "" || !strings.Contains(o.Panic, "injected panic") {
+	if exp.Err.On && (exp.Err.Class == "panic" || exp.Err.Class == "rterror") {
+		// a user function panicked with a non-error value (or a Go runtime error) outside any try: the panic is the
+		// caller's to handle, what was rendered before it has been written
+		marker := "injected panic"
+		if exp.Err.Class == "rterror" {
+			marker = "nil map"
+		}
+		if o.Panic == "" || !strings.Contains(o.Panic, marker) {
 			return false, "error", fmt.Sprintf("the injected panic did not reach the caller (panic %q, error %q)", o.Panic, o.Err)
 		}
 		o.Panic, o.Err = "", "panic"
